@@ -204,4 +204,85 @@ example : (sendUdp [1,2] 24 3 [.none, .reply 30 [9], .reply 10 [7]]).result = .o
     (sendUdp [1,2] 24 3 [.none, .reply 30 [9], .reply 10 [7]]).sends = [[1,2],[1,2],[1,2]] := ⟨rfl, rfl, rfl⟩
 example : (sendUdp [1] 4 2 [.none, .lost 1 false]).result = .error .timeout := rfl
 
+/-! ### a call abandoned by its caller (`Udp.loopCancel`) -/
+
+theorem loopCancel_spec (p : Bytes) (t c : Nat) (r : Nat) (outs : List Outcome) (f : Final) :
+    ∃ n, n ≤ r ∧ (loopCancel p t c r outs f).1.sends = f.sends ++ List.replicate n p ∧
+      (loopCancel p t c r outs f).1.opened = f.opened + n ∧ (loopCancel p t c r outs f).1.closed = f.closed + n := by
+  induction r generalizing outs f with
+  | zero => exact ⟨0, by simp [loopCancel]⟩
+  | succ r ih =>
+    unfold loopCancel
+    simp only
+    cases ha : attempt t (outs.head?.getD .none) with
+    | some rd =>
+      simp only
+      by_cases hc : c < f.elapsed + rd.2
+      · simp only [hc, ↓reduceIte]; exact ⟨1, by omega, by simp, by simp, by simp⟩
+      · simp only [hc, ↓reduceIte]; exact ⟨1, by omega, by simp, by simp, by simp⟩
+    | none =>
+      simp only
+      by_cases hc : c < f.elapsed + t
+      · simp only [hc, ↓reduceIte]; exact ⟨1, by omega, by simp, by simp, by simp⟩
+      · simp only [hc, ↓reduceIte]
+        by_cases hr : r = 0
+        · simp only [hr, ↓reduceIte]; exact ⟨1, by omega, by simp, by simp, by simp⟩
+        · simp only [hr, ↓reduceIte]
+          rcases ih outs.tail ⟨f.sends ++ [p], f.opened + 1, f.closed + 1, f.elapsed + t, f.result⟩ with ⟨n, hn, h1, h2, h3⟩
+          refine ⟨n + 1, by omega, ?_, ?_, ?_⟩
+          · rw [h1]; simp [List.replicate_succ]
+          · rw [h2]; simp; omega
+          · rw [h3]; simp; omega
+
+/-- **Abandoned calls leave nothing behind.**  At whatever instant the caller gives up (its own
+    `wait_for` deadline, `task.cancel()`), for every script of the network and every retry budget:
+    every endpoint the call opened is closed, and what was transmitted until then is at most
+    `retries` copies of the request. -/
+theorem C13_cancel_no_socket_left (packet : Bytes) (timeout retries : Nat) (outs : List Outcome) (cancelAt : Nat) :
+    (sendUdpCancel packet timeout retries outs cancelAt).1.opened = (sendUdpCancel packet timeout retries outs cancelAt).1.closed ∧
+    (sendUdpCancel packet timeout retries outs cancelAt).1.sends.length ≤ retries ∧
+    ∀ s ∈ (sendUdpCancel packet timeout retries outs cancelAt).1.sends, s = packet := by
+  rcases loopCancel_spec packet timeout cancelAt retries outs ⟨[], 0, 0, 0, .error .unbound⟩ with ⟨n, hn, h1, h2, h3⟩
+  unfold sendUdpCancel
+  rw [h1, h2, h3]
+  refine ⟨rfl, by simp; exact hn, ?_⟩
+  intro s hs
+  simp only [List.nil_append] at hs
+  exact List.eq_of_mem_replicate hs
+
+theorem loopCancel_not_cancelled (p : Bytes) (t c : Nat) (r : Nat) (outs : List Outcome) (f : Final)
+    (h : (loopCancel p t c r outs f).2 = false) : (loopCancel p t c r outs f).1 = loop p t r outs f := by
+  induction r generalizing outs f with
+  | zero => simp [loopCancel, loop]
+  | succ r ih =>
+    unfold loopCancel at h
+    unfold loopCancel loop
+    simp only at h ⊢
+    cases ha : attempt t (outs.head?.getD .none) with
+    | some rd =>
+      simp only [ha] at h ⊢
+      by_cases hc : c < f.elapsed + rd.2
+      · simp [hc] at h
+      · simp only [hc, ↓reduceIte]
+    | none =>
+      simp only [ha] at h ⊢
+      by_cases hc : c < f.elapsed + t
+      · simp [hc] at h
+      · simp only [hc, ↓reduceIte] at h ⊢
+        by_cases hr : r = 0
+        · simp only [hr, ↓reduceIte]
+        · simp only [hr, ↓reduceIte] at h ⊢
+          exact ih _ _ h
+
+/-- a call that ends before its caller gives up is the call alone: same transmissions, same
+    result at the same instant -/
+theorem C13_cancel_late (packet : Bytes) (timeout retries : Nat) (outs : List Outcome) (cancelAt : Nat)
+    (h : (sendUdpCancel packet timeout retries outs cancelAt).2 = false) :
+    (sendUdpCancel packet timeout retries outs cancelAt).1 = sendUdp packet timeout retries outs :=
+  loopCancel_not_cancelled packet timeout cancelAt retries outs _ h
+
+/- non-vacuity: abandoned in the second attempt of three; ends by itself when the deadline is later -/
+example : (sendUdpCancel [1] 4 3 [.none, .reply 2 [9]] 5).2 = true ∧ (sendUdpCancel [1] 4 3 [.none, .reply 2 [9]] 5).1.sends = [[1], [1]] ∧
+    (sendUdpCancel [1] 4 3 [.none, .reply 2 [9]] 6).2 = false := by decide
+
 end Snmp.Props.C13
